@@ -140,8 +140,11 @@ func (r *WireReader) nextSeg() bool {
 }
 
 func (r *WireReader) Read(b []byte) (int, error) {
-	if !r.nextSeg() && len(b) > 0 {
-		return 0, io.EOF
+	if !r.nextSeg() {
+		if len(b) > 0 {
+			return 0, io.EOF
+		}
+		return 0, nil
 	}
 	n := copy(b, r.wire[r.seg][r.pos:])
 	r.pos += n
@@ -193,8 +196,12 @@ func (r *WireReader) ReadWire(l int) (Wire, error) {
 }
 
 func (r *WireReader) ReadBuf(l int) (Buffer, error) {
-	if !r.nextSeg() && l > 0 {
-		return nil, io.ErrUnexpectedEOF
+	if !r.nextSeg() {
+		if l > 0 {
+			return nil, io.ErrUnexpectedEOF
+		}
+		// A zero-length read at the very end of the wire is valid (e.g. an empty last name component)
+		return Buffer{}, nil
 	}
 	if r.pos+l <= len(r.wire[r.seg]) {
 		p := r.pos
